@@ -4,7 +4,11 @@ Design: Literals.tla / LiteralsOps.tla (see C20).  (a) TLC enumerates the value 
 (MC_Literals, Mode "render"); every value goes through the real literalgen.literal_to_cst -> source ->
 eval and through parse_literal.  (b) TLC enumerates (requested type x configuration flag combination x
 draw index) (Mode "draws"); every case is one seeded generate_literal call followed by a chain of
-mutate_literal calls (and chains started from rendered representatives).  LiteralsTrace.tla is evaluated
+mutate_literal calls (and chains started from rendered representatives).  (c) TLC enumerates parse-only
+literal inputs (integer literal tokens <<sign, base, digits with underscores, letter case>> alone, as
+complex components and in containers; LiteralsOps!LitValue states their value as sign + base-16 limbs);
+each is given as source text to parse_literal / get_literal_value / set_literal_value and starts a
+mutate_literal chain.  LiteralsTrace.tla is evaluated
 by TLC on the observed descriptors: RenderedLiteralIsValidPython, EvaluatesToRequestedType, RoundTrip,
 ParseBackAgrees with ~ = same type, equal, sign of zero preserved, NaN matches NaN.
 """
@@ -14,11 +18,12 @@ from __future__ import annotations
 import json
 
 from harness.adapters import literals as ad
-from harness.core import Ctx
+from harness.core import Ctx, MachineryError
 from harness.props.C20 import brief, design, leaves
 
 CLAUSES = {"RenderedLiteralIsValidPython", "EvaluatesToRequestedType", "RoundTrip", "ParseBackAgrees"}
 MODEL = {"RaiseFollowsModel", "ShapeFollowsModel", "BackFollowsModel", "FallbackIsNone"}
+SELFCHECK = {"LitValueIsPythonValue"}
 NEGZERO = (-0.0).hex()
 
 
@@ -36,6 +41,17 @@ def _short(d: dict) -> dict:
     return {"k": d["k"], "c": c, "es": [_short(e) for e in d["es"]]}
 
 
+def _xshort(d: dict) -> str:
+    """Exact descriptor (sign + base-16 limbs) as text, long limb sequences abbreviated."""
+    if d["k"] in ("int", "float"):
+        if d["sg"] == 2:
+            return f"{d['k']}(?)"
+        h = "".join("0123456789abcdef"[x] for x in d["hx"]) or "0"
+        h = h if len(h) <= 24 else h[:16] + f"...({len(h)} hex digits)"
+        return f"{d['k']}({'-' if d['sg'] < 0 else ''}0x{h})"
+    return d["k"] + ("[" + ",".join(_xshort(e) for e in d["es"]) + "]" if d["es"] else "")
+
+
 def culprit(ev: dict, clause: str) -> str:
     """Attribution only (makes the signature; the verdict is TLC's)."""
     if ev["op"] == "render":
@@ -45,8 +61,14 @@ def culprit(ev: dict, clause: str) -> str:
         if clause in ("RoundTrip", "ParseBackAgrees") and _has_negzero(ev["v"]):
             return "f_negzero"
         return brief(ev["case"]) + (f"#{ev['m']}" if ev["m"] else "")
+    if ev["op"] == "parse":
+        return ev["label"]
     if ev.get("seeded") and _has_negzero(ev["seedv"]):
         return f"{ev['req']}/seeded-f_negzero"
+    if ev.get("origin"):        # mutation chain started from a parse-only literal
+        return f"{ev['req']}/from-literal:{ev['origin']}/draw{ev['i']}"
+    if ev["start"]["k"] != "-" and ev["op"] == "mut":   # ... from a rendered representative
+        return f"{ev['req']}/from:{brief(ev['start'])}/{_flags(ev['flags'])}/draw{ev['i']}"
     return f"{ev['req']}/{_flags(ev['flags'])}/draw{ev['i']}"
 
 
@@ -59,7 +81,16 @@ def describe(ev: dict) -> str:
         return (f"literal_to_cst({brief(ev['case'])} member {ev['m']}) -> {ev['code']!r} raised={ev['raised'] or '-'} "
                 f"compiles={ev['compiles']} evalok={ev['evalok']} value={_short(ev['v'])} back={_short(ev['back'])} "
                 f"parsed={'-' if not ev['p_some'] else _short(ev['parsed'])}")
-    return (f"{ev['op']} {ev['req']} [{_flags(ev['flags'])}] draw {ev['i']} -> {ev['code']!r} raised={ev['raised'] or '-'} "
+    if ev["op"] == "parse":
+        return (f"source text {ev['code'][:60]!r}{'...' if ev['code_len'] > 60 else ''} ({ev['code_len']} chars, {ev['label']}) "
+                f"as {ev['req']}: python value={_xshort(ev['xv']) if ev['evalok'] else '-'}; parse_literal "
+                f"raised={ev['p_raised'] or '-'} value={_xshort(ev['pv']) if ev['p_some'] else None}; get_literal_value "
+                f"raised={ev['g_raised'] or '-'} value={_xshort(ev['gv']) if ev['g_some'] else None}; set_literal_value "
+                f"wrote={ev['w_wrote']} raised={ev['w_raised'] or '-'} -> {ev['w_code'][:60]!r} evaluates to "
+                f"{_xshort(ev['w_xv']) if ev['w_evalok'] else '-'}, read back {_xshort(ev['wv']) if ev['w_some'] else None}")
+    origin = f" chain from {ev['origin']}" if ev.get("origin") else (
+        f" chain from {brief(ev['start'])}" if ev["start"]["k"] != "-" else "")
+    return (f"{ev['op']} {ev['req']} [{_flags(ev['flags'])}] draw {ev['i']}{origin} -> {ev['code']!r} raised={ev['raised'] or '-'} "
             f"compiles={ev['compiles']} evalok={ev['evalok']} back={_short(ev['back'])} re-rendered={_short(ev['back2'])} "
             f"seeded={_short(ev['seedv']) if ev['seeded'] else '-'} "
             f"parsed={'-' if not ev['p_some'] else _short(ev['parsed'])}")
@@ -75,10 +106,14 @@ def observe(ctx: Ctx):
     traces = [{"ev": [ad.render_value(c["v"], c["m"], ctx.seed)]} for c in ra]
     for c in rb:
         for e in ad.draw(c, ctx.seed)["ev"]:
+            if e["op"] == "parse" and c["i"] != 1:
+                continue        # the same literal starts several mutation chains; it is parsed once
             owners.append(c)
             traces.append({"ev": [e]})
     ctx.notes["cases_render"] = len(ra)
-    ctx.notes["cases_draw_chains"] = len(rb)
+    ctx.notes["cases_draw_chains"] = sum(1 for c in rb if c["op"] != "parse")
+    ctx.notes["cases_parse_only_literals"] = sum(1 for c in rb if c["op"] == "parse" and c["i"] == 1)
+    ctx.notes["cases_parse_only_chains"] = sum(1 for c in rb if c["op"] == "parse")
     return owners, traces
 
 
@@ -89,6 +124,11 @@ def run(ctx: Ctx) -> None:
                 "over a core of classes) through literal_to_cst -> source -> eval and parse_literal; case (b) = "
                 "(requested literal type, configuration flag combination, draw index) and (representative, flags, draw "
                 "index): one seeded generate_literal (or rendered representative) followed by 3 mutate_literal calls; "
+                "case (c) = parse-only literal input enumerated by TLC: integer literal token (sign -, +, none x base "
+                "10/16/2/8 x digit pattern zero/one/max digit/4 digits/leading zeros/> 2^32/> 2^64/>= 10^4300 x "
+                "underscore placement none/groups/every digit/after the prefix x letter case), alone, as real / "
+                "imaginary argument of complex(..) and inside list/tuple/set/dict/nested containers, given as source "
+                "text to parse_literal, get_literal_value, set_literal_value and as start of mutate_literal chains; "
                 "non-trivial = distinct (case, step) whose literal was rendered")
     ctx.assumptions = ["one canonical representative per leaf class (thorough: plus 2 seeded random members per class)",
                        "random draws are sampled (seeded from the check seed), not enumerated",
@@ -96,7 +136,12 @@ def run(ctx: Ctx) -> None:
                        "surrogates), sizes default/tiny/large, element pool none/references, random_perturbation 0/1, "
                        "token assembly off/on; sizes 0 (string_length=0, collection_size=0) are not exercised",
                        "requested types are literalgen.LITERAL_TYPES (callers map ABCs with map_abstract_collection "
-                       "first; the mapping table is recorded as evidence only)"]
+                       "first; the mapping table is recorded as evidence only)",
+                       "parse-only inputs: integer literals only (no float / string literal spellings Pynguin does not "
+                       "render itself); decimal literals stay below the 4300 digit limit of the interpreter; int "
+                       "arguments of complex(..) stay below 2^53; their expected values are computed by TLC "
+                       "(LiteralsOps!LitValue, sign + base-16 limbs) and TLC also checks that Python evaluates the "
+                       "source text to that value (LitValueIsPythonValue, machinery error otherwise)"]
     ctx.notes["explanation"] = (
         "Case partition plus seeded sampling, not an exhaustive check: literal values form an unbounded domain.  TLC "
         "enumerates a partition of the value grammar and the (type x flags x draw) cases; the real literalgen functions "
@@ -119,6 +164,10 @@ def run(ctx: Ctx) -> None:
     for idx, bad in sorted(verdicts.items()):
         for clause, step in bad:
             ev = traces[idx]["ev"][step - 1]
+            if clause in SELFCHECK:
+                raise MachineryError(f"{clause}: the value LiteralsOps!LitValue states for a parse-only input is not "
+                                     f"what Python evaluates its source text to (specification / adapter error): "
+                                     + describe(ev))
             if clause in CLAUSES:
                 ctx.bad(clause, signature(ev, clause), describe(ev), trace={"ev": [ev]}, behaviour=cases[idx])
             elif clause in MODEL:
@@ -128,7 +177,11 @@ def run(ctx: Ctx) -> None:
                     ctx.drift.append(f"{clause}: {brief(ev['case'])}: code {ev['code']!r} raised {ev['raised'] or '-'} "
                                      f"shape {ev['shape']} back {ev['backc']}")
     for t in (traces[0], traces[len(traces) // 3], traces[-1]):
-        ctx.sample({k: v for k, v in t["ev"][0].items() if k not in ("shape", "backc")})
+        ctx.sample({k: v for k, v in t["ev"][0].items() if k not in ("shape", "backc", "lit")})
+    for t in traces:
+        if t["ev"][0]["op"] == "parse" and t["ev"][0]["ctx"] == "cre":
+            ctx.sample({k: v for k, v in t["ev"][0].items() if k != "lit"}, limit=6)
+            break
 
 
 def replay(ctx: Ctx, rec: dict) -> int:
